@@ -39,100 +39,6 @@ Proof.
 Qed.
 
 (* ------------------------------------------------------------------------------------------ *)
-(** * the name -> index table of a filtered (index, name) list *)
-
-Lemma name_of_find_value : forall (own : list (N * N)) k, name_of own k = find_value k own.
-Proof. reflexivity. Qed.
-
-Lemma name_of_in : forall (F : list (N * N)) k n, name_of F k = Some n -> In (k, n) F.
-Proof. intros F k n H. rewrite name_of_find_value in H. now apply find_value_some. Qed.
-Lemma name_of_nodup : forall (F : list (N * N)) k n, NoDup (map fst F) -> In (k, n) F -> name_of F k = Some n.
-Proof. intros F k n Hn Hin. rewrite name_of_find_value. now apply find_value_nodup. Qed.
-Lemma name_of_none : forall (F : list (N * N)) k, name_of F k = None -> forall n, ~ In (k, n) F.
-Proof.
-  intros F k H n Hin. rewrite name_of_find_value in H. apply find_value_none in H. apply H.
-  apply in_map_iff. exists (k, n). auto.
-Qed.
-
-Lemma index_of_in : forall (F : list (N * N)) k n, index_of F n = Some k -> In (k, n) F.
-Proof.
-  intros F k n H. unfold index_of in H.
-  destruct (find (fun kn => N.eqb (snd kn) n) F) as [[k' n']|] eqn:E; [|discriminate].
-  cbn in H. injection H as ->. apply find_some in E. destruct E as [Hin Hk]. cbn in Hk.
-  apply N.eqb_eq in Hk. now subst.
-Qed.
-Lemma index_of_nodup : forall (F : list (N * N)) k n, NoDup (map snd F) -> In (k, n) F -> index_of F n = Some k.
-Proof. intros F k n Hn Hin. unfold index_of. now rewrite (find_snd_unique _ _ _ Hn Hin). Qed.
-Lemma index_of_none : forall (F : list (N * N)) n, index_of F n = None -> ~ In n (map snd F).
-Proof.
-  intros F n H Hin. unfold index_of in H.
-  destruct (find (fun kn => N.eqb (snd kn) n) F) eqn:E; [discriminate|].
-  apply in_map_iff in Hin. destruct Hin as [kv [Ek Hkv]]. pose proof (find_none _ _ E kv Hkv) as P.
-  cbn in P. rewrite Ek, N.eqb_refl in P. discriminate.
-Qed.
-
-Lemma G1 : forall F k n, name_of_index (names_of F) k = Some n ->
-  In (k, n) F /\ index_of_name (names_of F) n = Some k.
-Proof.
-  intros F k n H. apply name_of_index_some in H. split; [now apply names_of_in|].
-  apply index_of_name_unique; [apply names_of_keys|assumption].
-Qed.
-Lemma G2 : forall F k n, NoDup (map fst F) -> index_of_name (names_of F) n = Some k ->
-  In (k, n) F /\ name_of_index (names_of F) k = Some n.
-Proof.
-  intros F k n Hkeys H. apply index_of_name_some in H. pose proof (names_of_in _ _ _ H) as Hf.
-  split; [assumption|]. unfold name_of_index.
-  destruct (find (fun nv => N.eqb (snd nv) k) (names_of F)) as [[n' k']|] eqn:E.
-  - apply find_some in E. destruct E as [Hin Hk]. cbn in Hk. apply N.eqb_eq in Hk. subst k'.
-    pose proof (names_of_in _ _ _ Hin) as Hf'. cbn. f_equal.
-    pose proof (find_fst_unique _ _ _ Hkeys Hf) as F1.
-    pose proof (find_fst_unique _ _ _ Hkeys Hf') as F2. congruence.
-  - exfalso. pose proof (find_none _ _ E _ H) as P. cbn in P. now rewrite N.eqb_refl in P.
-Qed.
-Lemma G3 : forall F k n, NoDup (map fst F) -> NoDup (map snd F) -> In (k, n) F ->
-  name_of_index (names_of F) k = Some n.
-Proof.
-  intros F k n H1 H2 Hin. rewrite (names_of_id F H1 H2). apply name_of_index_unique.
-  - now rewrite map_snd_swap.
-  - apply in_map_iff. exists (k, n). auto.
-Qed.
-Lemma G4 : forall F n, NoDup (map fst F) -> In n (map snd F) -> exists k, index_of_name (names_of F) n = Some k.
-Proof.
-  intros F n Hk Hin. unfold names_of.
-  rewrite (im_collect_nodup N.eqb (fun a b => proj1 (N.eqb_eq a b)) F Hk).
-  assert (Hkey : In n (map fst (im_collect N.eqb (map swap_pair F)))).
-  { apply (proj2 (proj2 (im_collect_facts _))). now rewrite map_fst_swap. }
-  unfold index_of_name.
-  destruct (find (fun nv => N.eqb (fst nv) n) (im_collect N.eqb (map swap_pair F))) as [[n' k]|] eqn:E.
-  - exists k. reflexivity.
-  - exfalso. apply in_map_iff in Hkey. destruct Hkey as [nv [En Hnv]].
-    pose proof (find_none _ _ E nv Hnv) as P. cbn in P. rewrite En, N.eqb_refl in P. discriminate.
-Qed.
-
-Lemma names_ok_of : forall (hyp : bool) F by_index by_name,
-  NoDup (map fst F) -> (hyp = true -> NoDup (map snd F)) ->
-  (forall q, In q by_index -> snd q = name_of_index (names_of F) (fst q)) ->
-  (forall q, In q by_name -> snd q = index_of_name (names_of F) (fst q)) ->
-  names_ok hyp F by_index by_name = true.
-Proof.
-  intros hyp F bi bn Hk Hs H1 H2. unfold names_ok. apply andb_true_iff. split; apply forallb_forall; intros q Hq.
-  - pose proof (H1 q Hq) as E. destruct (snd q) as [n|] eqn:Es.
-    + symmetry in E. destruct (G1 F _ _ E) as [Hin Hix]. apply andb_true_iff. split.
-      * rewrite (name_of_nodup F _ _ Hk Hin). apply oN_refl.
-      * apply forallb_forall. intros q' Hq'. destruct (N.eqb_spec (fst q') n) as [En|En]; [|reflexivity].
-        cbn [negb orb]. rewrite (H2 q' Hq'), En, Hix. apply oN_refl.
-    + destruct (name_of F (fst q)) as [n|] eqn:En; [|reflexivity].
-      destruct hyp; [|reflexivity]. exfalso. apply name_of_in in En.
-      rewrite (G3 F _ _ Hk (Hs eq_refl) En) in E. discriminate.
-  - pose proof (H2 q Hq) as E. destruct (snd q) as [k|] eqn:Es.
-    + symmetry in E. destruct (G2 F _ _ Hk E) as [Hin Hnm]. apply andb_true_iff. split.
-      * rewrite (name_of_nodup F _ _ Hk Hin). apply oN_refl.
-      * apply forallb_forall. intros q' Hq'. destruct (N.eqb_spec (fst q') k) as [Ek|Ek]; [|reflexivity].
-        cbn [negb orb]. rewrite (H1 q' Hq'), Ek, Hnm. apply oN_refl.
-    + apply (not_memb N.eqb N_sound). intros Hin. destruct (G4 F _ Hk Hin) as [k Hk']. congruence.
-Qed.
-
-(* ------------------------------------------------------------------------------------------ *)
 (** * boolean equalities of Corr/C04.v *)
 
 Lemma N3_sound : forall a b, N3_eqb a b = true -> a = b.
